@@ -353,7 +353,10 @@ def stepFwCore (pid : String) (d : DrvSt) (op : String) (got : String) : StepRes
           let (sp, fails) := match parseGot got with
             | some (ps, pit, cs) => Spec.onData d.sp f dd (specTok d.sp tok) ps pit cs
             | none => (d.sp, [])
-          { st := { d with sp := sp }, expected := some "skip", spec := fails.filter (keepClause pid), cov := ["d-skip"] }
+          -- (after an ambiguous timer order the model is no longer compared: it may lack the Interest whose token the
+          -- reference names, which is no disagreement)
+          { st := { d with sp := sp }, expected := if ts.any (·.amb) then none else some "skip",
+            spec := fails.filter (keepClause pid), cov := ["d-skip"] }
       | some (dt, tokThread) =>
         let dd : Data := { name := n, freshMs := fresh, content := c, tok := dt }
         let orc := parseOracle got
